@@ -87,7 +87,8 @@ type benignParams struct {
 	CliCertSrc   int      // 0 static 1 GetClientCertificate
 	Tickets      bool
 	DynOff       bool
-	SrvKey       int  // TLS: 0 rsa 1 ecdsa
+	SrvKey       int  // TLS: 0 rsa 1 ecdsa P-256 2 ecdsa P-384 3 ecdsa P-521
+	CliKey       int  // TLS client certificate (ClientCert 1): 0 rsa 1 ecdsa P-384 2 ecdsa P-521
 	CallbackErr  int  // 0 none 1 server cert callback fails 2 client cert callback fails
 	CVerify      int  // 0 correct 1 wrong server name 2 wrong roots 3 InsecureSkipVerify
 	SrvChain     int  // GM: 0 direct leaf, 1 via intermediate
@@ -95,6 +96,7 @@ type benignParams struct {
 	VHost        bool // the server holds two identities; the client asks for the second name (server2.sim)
 	MultiCert    bool // GMSSL client holding several certificates, an RSA one first: the SM2 one is the one to send
 	Reneg        int  // client's Config.Renegotiation (never / once / freely): no effect on a benign session
+	BigSize      int  // BigChain: bytes of padding certificates per chain (0 = 17 500; 40 000 makes the transcript of a mutually authenticated TLS handshake exceed 64 KiB before the ClientKeyExchange)
 	BigChain     bool // certificate chains padded with unrelated certificates of the same family until the Certificate message exceeds one record (16 KiB)
 	OuterCfg     int  // SrvCertSrc 2: policy fields of the listener configuration: 0 same as the per-connection one, 1 permissive decoy, 2 restrictive decoy
 }
@@ -174,7 +176,8 @@ func drawBenignParams(c *simkit.Choice) benignParams {
 		p.SMax = vs[c.Weighted([]int{5, 1, 1, 2}, simkit.LScen)]
 		p.CMin = vs[c.Weighted([]int{3, 3, 1, 2}, simkit.LScen)]
 		p.SMin = vs[c.Weighted([]int{3, 3, 1, 2}, simkit.LScen)]
-		p.SrvKey = c.Weighted([]int{3, 1}, simkit.LScen)
+		p.SrvKey = c.Weighted([]int{6, 2, 1, 1}, simkit.LScen)
+		p.CliKey = c.Weighted([]int{4, 1, 1}, simkit.LScen)
 	}
 	// application protocols: none, both ends with a common entry, one end only
 	protoPool := []string{"h2", "http/1.1", "sim/1", "sim/2"}
@@ -236,7 +239,10 @@ func drawBenignParams(c *simkit.Choice) benignParams {
 	if p.SrvCertSrc == 2 {
 		p.OuterCfg = c.Weighted([]int{1, 2, 2}, simkit.LScen)
 	}
-	p.BigChain = c.Bool(1, 10, simkit.LScen)
+	p.BigChain = c.Bool(1, 8, simkit.LScen)
+	if p.BigChain && c.Bool(1, 2, simkit.LScen) {
+		p.BigSize = 40000
+	}
 	p.Reneg = c.Weighted([]int{4, 1, 1}, simkit.LScen)
 	if p.CGM && p.ClientCert == 1 && p.CliCertSrc == 0 && p.Peer != peerStdClient {
 		p.MultiCert = c.Bool(1, 3, simkit.LScen)
@@ -246,18 +252,25 @@ func drawBenignParams(c *simkit.Choice) benignParams {
 
 var errCallback = errors.New("verifsim: injected callback error")
 
+func tlsSrvCertName(k int) string { return []string{"tlsrsa", "tlsp256", "tlsp384", "tlsp521"}[k] }
+func tlsCliCertName(k int) string { return []string{"tlsclirsa", "tlsclip384", "tlsclip521"}[k] }
+
 // bigExtras returns unrelated certificates of one family (SM2 or RSA/ECDSA),
 // repeated until they add up to more than one record's worth of bytes: a chain
 // carrying them makes the Certificate message span two records. They are
 // harmless to verification (extra candidates for intermediates).
-func bigExtras(gm bool) [][]byte {
+func bigExtras(gm bool, target ...int) [][]byte {
+	want := 17500
+	if len(target) > 0 && target[0] > 0 {
+		want = target[0]
+	}
 	names := []string{"rsaInt", "tlsrsa2", "tlsclirsa", "tlswild", "tlscliint", "tlsclienc", "forgedrsa-srv"}
 	if gm {
 		names = []string{"caAint", "srv2-sign", "srv2-enc", "cliB", "srvB-sign", "srvwild-sign", "cliint", "srvother-sign"}
 	}
 	var out [][]byte
 	total := 0
-	for i := 0; total < 17500; i++ {
+	for i := 0; total < want; i++ {
 		d := pki.DER(names[i%len(names)])
 		out = append(out, d)
 		total += len(d) + 3
@@ -404,7 +417,7 @@ func (p *benignParams) model() (verdict int, rule string, vers uint16, suite uin
 			if si.tls12 && vers < gmtls.VersionTLS12 {
 				continue
 			}
-			if si.ecdsa != (p.SrvKey == 1) {
+			if si.ecdsa != (p.SrvKey >= 1) {
 				continue
 			}
 			suite = id
@@ -467,7 +480,7 @@ func gmOnly(l []uint16) []uint16 {
 
 func (p *benignParams) String() string {
 	return fmt.Sprintf("alpn=%v/%v curves=%v smode=%d cgm=%v peer=%d csuites=%x ssuites=%x prefsrv=%v cver=[%x,%x] sver=[%x,%x] auth=%d ccert=%d cas=%v ssrc=%d csrc=%d tick=%v dyn=%v skey=%d cberr=%d cverify=%d chain=%d missing=%v vhost=%v",
-		p.CProtos, p.SProtos, p.Curves, p.SMode, p.CGM, p.Peer, p.CSuites, p.SSuites, p.PreferServer, p.CMin, p.CMax, p.SMin, p.SMax, p.ClientAuth, p.ClientCert, p.SrvClientCAs, p.SrvCertSrc, p.CliCertSrc, p.Tickets, p.DynOff, p.SrvKey, p.CallbackErr, p.CVerify, p.SrvChain, p.SrvMissing, p.VHost) + fmt.Sprintf(" outer=%d bigchain=%v reneg=%d multicert=%v", p.OuterCfg, p.BigChain, p.Reneg, p.MultiCert)
+		p.CProtos, p.SProtos, p.Curves, p.SMode, p.CGM, p.Peer, p.CSuites, p.SSuites, p.PreferServer, p.CMin, p.CMax, p.SMin, p.SMax, p.ClientAuth, p.ClientCert, p.SrvClientCAs, p.SrvCertSrc, p.CliCertSrc, p.Tickets, p.DynOff, p.SrvKey, p.CallbackErr, p.CVerify, p.SrvChain, p.SrvMissing, p.VHost) + fmt.Sprintf(" outer=%d bigchain=%v reneg=%d multicert=%v clikey=%d bigsize=%d", p.OuterCfg, p.BigChain, p.Reneg, p.MultiCert, p.CliKey, p.BigSize)
 }
 
 // serverConfig builds the gmtls server configuration.
@@ -481,15 +494,11 @@ func (p *benignParams) serverConfig(s *simkit.Sim, ent *simkit.Stream, res *endR
 	}
 	sign, enc := pki.GM(signN, chain...), pki.GM(encN, chain...)
 	var std gmtls.Certificate
-	if p.SrvKey == 1 {
-		std = pki.GMStd("tlsp256")
-	} else {
-		std = pki.GMStd("tlsrsa")
-	}
+	std = pki.GMStd(tlsSrvCertName(p.SrvKey))
 	sign2, enc2, std2 := pki.GM("srv2-sign"), pki.GM("srv2-enc"), pki.GMStd("tlsrsa2")
 	if p.BigChain {
-		std.Certificate = append(std.Certificate, bigExtras(false)...)
-		std2.Certificate = append(std2.Certificate, bigExtras(false)...)
+		std.Certificate = append(std.Certificate, bigExtras(false, p.BigSize)...)
+		std2.Certificate = append(std2.Certificate, bigExtras(false, p.BigSize)...)
 	}
 	fill := func(c *gmtls.Config) {
 		switch p.SMode {
@@ -701,7 +710,7 @@ func (p *benignParams) clientConfig(s *simkit.Sim, ent *simkit.Stream, res *endR
 		x := pki.GMStd("tlscliint", "rsaInt")
 		cc = &x
 	case p.ClientCert == 1:
-		x := pki.GMStd("tlsclirsa")
+		x := pki.GMStd(tlsCliCertName(p.CliKey))
 		cc = &x
 	case p.ClientCert == 2:
 		x := pki.GMStd("tlsrsa") // a certificate without clientAuth usage from the same CA is still "rooted"; use an SM2-CA one instead
@@ -711,10 +720,10 @@ func (p *benignParams) clientConfig(s *simkit.Sim, ent *simkit.Stream, res *endR
 	if cc != nil && p.BigChain && p.ClientCert != 2 {
 		// (not for the untrusted certificate: the extras are issued by the trusted CA and
 		// would make the chain match the server's acceptable-CA list)
-		cc.Certificate = append(cc.Certificate, bigExtras(p.CGM)...)
+		cc.Certificate = append(cc.Certificate, bigExtras(p.CGM, p.BigSize)...)
 	}
 	if cc != nil && p.ClientLeaf {
-		cc.Leaf = pki.Cert(map[bool]map[int]string{true: {1: "cli", 2: "cliB", 3: "cliint"}, false: {1: "tlsclirsa", 2: "srvrsa", 3: "tlscliint"}}[p.CGM][p.ClientCert])
+		cc.Leaf = pki.Cert(map[bool]map[int]string{true: {1: "cli", 2: "cliB", 3: "cliint"}, false: {1: tlsCliCertName(p.CliKey), 2: "srvrsa", 3: "tlscliint"}}[p.CGM][p.ClientCert])
 	}
 	if cc != nil {
 		if p.CliCertSrc == 1 {
@@ -1092,10 +1101,7 @@ func runTLSBenign(c *simkit.Choice, r *simkit.Rec) {
 			return
 		}
 	} else {
-		want := "tlsrsa"
-		if p.SrvKey == 1 {
-			want = "tlsp256"
-		}
+		want := tlsSrvCertName(p.SrvKey)
 		if p.VHost {
 			want = "tlsrsa2"
 		}
@@ -1115,7 +1121,7 @@ func runTLSBenign(c *simkit.Choice, r *simkit.Rec) {
 		}
 		if pres {
 			r.Reach(idx(benignReach, "client-cert-sent"))
-			want := map[bool]map[int]string{true: {1: "cli", 2: "cliB", 3: "cliint"}, false: {1: "tlsclirsa", 2: "srvrsa", 3: "tlscliint"}}[p.CGM][p.ClientCert]
+			want := map[bool]map[int]string{true: {1: "cli", 2: "cliB", 3: "cliint"}, false: {1: tlsCliCertName(p.CliKey), 2: "srvrsa", 3: "tlscliint"}}[p.CGM][p.ClientCert]
 			if !bytes.Equal(sv.peer[0], pki.DER(want)) {
 				r.Violate("peer-certs", site+"/client-cert", "server's PeerCertificates[0] is not the client's certificate")
 				return
@@ -1208,7 +1214,7 @@ func runTLSBenign(c *simkit.Choice, r *simkit.Rec) {
 		if p.VHost {
 			keyName = "tlsrsa2"
 		}
-		if p.SrvKey == 1 {
+		if p.SrvKey >= 1 {
 			keyName = "" // ECDSA certificate: ECDHE only, master secret from the key log
 		}
 		if msg := wireCheckTLS12(a.WrPipe().Captured(), b.WrPipe().Captured(), &cr, &sr, planC.Payload, planS.Payload, keyName, cv.suite); msg != "" {
@@ -1294,14 +1300,14 @@ func stdClientRun(p *benignParams, raw *simkit.Conn, ent *simkit.Stream, plan *a
 	cfg.SessionTicketsDisabled = true
 	switch p.ClientCert {
 	case 1:
-		cfg.Certificates = []tls.Certificate{{Certificate: [][]byte{pki.DER("tlsclirsa")}, PrivateKey: pki.StdKey("tlsclirsa")}}
+		cfg.Certificates = []tls.Certificate{{Certificate: [][]byte{pki.DER(tlsCliCertName(p.CliKey))}, PrivateKey: pki.StdKey(tlsCliCertName(p.CliKey))}}
 	case 2:
 		cfg.Certificates = []tls.Certificate{{Certificate: [][]byte{pki.DER("srvrsa")}, PrivateKey: pki.StdKey("srvrsa")}}
 	case 3:
 		cfg.Certificates = []tls.Certificate{{Certificate: [][]byte{pki.DER("tlscliint"), pki.DER("rsaInt")}, PrivateKey: pki.StdKey("tlscliint")}}
 	}
 	if p.BigChain && len(cfg.Certificates) == 1 && p.ClientCert != 2 {
-		cfg.Certificates[0].Certificate = append(cfg.Certificates[0].Certificate, bigExtras(false)...)
+		cfg.Certificates[0].Certificate = append(cfg.Certificates[0].Certificate, bigExtras(false, p.BigSize)...)
 	}
 	conn := tls.Client(raw, cfg)
 	e.HsErr = conn.Handshake()
@@ -1315,13 +1321,10 @@ func stdClientRun(p *benignParams, raw *simkit.Conn, ent *simkit.Stream, plan *a
 
 func stdServerRun(p *benignParams, raw *simkit.Conn, ent *simkit.Stream, plan *appPlan, e *stdEnd) {
 	cfg := stdCommon(p, ent)
-	name := "tlsrsa"
-	if p.SrvKey == 1 {
-		name = "tlsp256"
-	}
+	name := tlsSrvCertName(p.SrvKey)
 	cfg.Certificates = []tls.Certificate{{Certificate: [][]byte{pki.DER(name)}, PrivateKey: pki.StdKey(name)}}
 	if p.BigChain {
-		cfg.Certificates[0].Certificate = append(cfg.Certificates[0].Certificate, bigExtras(false)...)
+		cfg.Certificates[0].Certificate = append(cfg.Certificates[0].Certificate, bigExtras(false, p.BigSize)...)
 	}
 	cfg.CipherSuites = stdSuites(p.SSuites)
 	cfg.NextProtos = p.SProtos
